@@ -485,5 +485,57 @@ def render(facts):  # noqa: F811
     return text
 
 
+# ====================================================================== seeding facts (C16)
+def _calls(fn):
+    return [n for n in ast.walk(fn) if isinstance(n, ast.Call)]
+
+
+def seeding_facts():
+    out = {}
+    fatree = _parse("factor_analysis.py")
+    cu = _find_func(fatree, "create_UVD", "FactorAnalysisBase")
+    seeds = [c.lineno for c in _calls(cu) if _dotted(c.func) == "np.random.seed" and c.args and ast.unparse(c.args[0]) == "self.random_state"]
+    draws = [c.lineno for c in _calls(cu) if (_dotted(c.func) or "").startswith("np.random.") and _dotted(c.func) != "np.random.seed"]
+    out["create_uvd_reseeds_before_drawing"] = bool(seeds and draws and min(seeds) < min(draws))
+    km = _parse("kmeans.py")
+    ini = _find_func(km, "initialize", "KMeansMachine")
+    out["kinit_receives_seed"] = any(_dotted(c.func) == "k_init" and any(k.arg == "random_state" and ast.unparse(k.value) == "self.random_state" for k in c.keywords)
+                                     for c in _calls(ini))
+    out["kmeans_uses_no_global_rng"] = not any((_dotted(c.func) or "").startswith("np.random.") for n in ast.walk(km) if isinstance(n, ast.FunctionDef) for c in _calls(n))
+    gm = _parse("gmm.py")
+    ig = _find_func(gm, "initialize_gaussians", "GMMMachine")
+    out["gmm_passes_seed_to_kmeans"] = any(_dotted(c.func) == "KMeansMachine" and any(k.arg == "random_state" and ast.unparse(k.value) == "self.random_state" for k in c.keywords)
+                                           for c in _calls(ig))
+    out["gmm_uses_no_global_rng"] = not any((_dotted(c.func) or "").startswith("np.random.") for n in ast.walk(gm) if isinstance(n, ast.FunctionDef) for c in _calls(n))
+    wc = _parse("wccn.py")
+    out["wccn_uses_no_rng"] = "random" not in ast.unparse(wc)
+    return out
+
+
+_old_extract2 = extract
+
+
+def extract():  # noqa: F811
+    facts = _old_extract2()
+    try:
+        facts["seeding"] = seeding_facts()
+    except Exception as e:
+        facts["error"] = repr(e)
+        facts["seeding"] = {}
+    return facts
+
+
+_old_render2 = render
+
+
+def render(facts):  # noqa: F811
+    text = _old_render2(facts)
+    sd = facts.get("seeding", {})
+    for k in ["create_uvd_reseeds_before_drawing", "kinit_receives_seed", "kmeans_uses_no_global_rng", "gmm_passes_seed_to_kmeans",
+              "gmm_uses_no_global_rng", "wccn_uses_no_rng"]:
+        text += "Definition %s : bool := %s.\n" % (k, "true" if sd.get(k) else "false")
+    return text
+
+
 if __name__ == "__main__":
     print(json.dumps(regenerate(), indent=1))
